@@ -75,10 +75,10 @@ impl Property for C03 {
         }
     }
     fn required_labels(&self, _tier: Tier) -> Vec<&'static str> {
-        vec!["nontrivial", "kind-with-zero-records", "term-linked-to-all-records", "rec-without-terms"]
+        vec!["nontrivial", "ancestors>30", "kind-with-zero-records", "term-linked-to-all-records", "rec-without-terms"]
     }
     fn run_generated(&self, tier: Tier, seed: u64, n: u64, stats: &mut Stats) -> Option<(Value, Failure)> {
-        let max = if tier == Tier::Quick { 20 } else { 70 };
+        let max = if tier == Tier::Quick { 34 } else { 90 };
         run_typed(ont_case_strategy(max, 10, false), seed, n, stats, check)
     }
     fn replay(&self, case: &Value, stats: &mut Stats) -> Result<CheckResult, String> {
